@@ -129,6 +129,7 @@ def c18(A, ctx, tier):
     warm.r_cache(A, ctx, {})
     storage.r_solverstate(A, ctx, dict(floor=25))
     warm.r_path(A, ctx, dict(floor=8), rule="R-PATH-PURE")
+    misc.r_initialize(A, ctx, dict(floor=6))
     ctx.note("spectral_norm draws its start vector from Numba's process-wide generator "
              "(np.random.randn inside an njit function): sparse global Lipschitz constants "
              "depend on how many draws happened before; informational (the power method's "
@@ -201,6 +202,8 @@ def c06(A, ctx, tier):
     ctx.assume("value() is compared with its own derivatives and siblings, not with the "
                "docstring formula (parsing maths out of prose would be a text match)")
     cox.r_cox(A, ctx, {}, parts=("grad", "adj", "risk"))
+    kernels.r_kernel_eq(A, ctx, dict(floor=12), rule="R-GRAD-EQ",
+                        select=lambda f: "construct_grad" in f.name)
     ctx.assume("Cox: the outer composition (gradient == gradient_sparse == X.T @ raw_grad) is decided "
                "for all shapes with the risk-set recursions as opaque operators; the recursions "
                "themselves are decided on six fixed tie / censoring patterns of 3-5 observations "
@@ -226,6 +229,7 @@ def c07(A, ctx, tier):
     degenerate.r_div(A, ctx, dict(floor=3), where=where, rule="R-DIV-PROX")
     blockpen.r_proxfoc_block(A, ctx, dict(floor=250))
     blockpen.r_proxfoc_scalar_region(A, ctx, dict(floor=60), only=blockpen.closed_form_classes())
+    blockpen.r_prox_zero_weight(A, ctx, dict(floor=12))
     ctx.assume("global optimality (as opposed to stationarity) of the closed forms prox_SCAD, prox_05, "
                "prox_2_3, prox_log_sum, prox_block_2_05, prox_SLOPE is an analytic result without "
                "structural clause: not claimed")
@@ -313,6 +317,8 @@ def c20(A, ctx, tier):
     extents.r_slotext(A, ctx, dict(floor=12))
     extents.r_slice(A, ctx, dict(floor=12))
     extents.r_bounds(A, ctx, dict(floor=30))
+    extents.r_argkind(A, ctx, dict(floor=60))
+    misc.r_initialize(A, ctx, dict(floor=6))
     ctx.assume("value-dependent indices (entries of user-supplied grp_indices / CSC indices being "
                "in range) are an input contract and not decided")
     return dict(explanation="extent discipline of compiled kernels: index kinds match axis "
